@@ -1288,13 +1288,26 @@ def applicable_rules(run, rule, ast):
         loops = _enclosing(parent, st, ("CXXForRangeStmt",))
         ok = False
         why = "the mask bit is not guarded by a single membership test"
+        recognised = False
         if ifs and len(loops) >= 3:
             spec_loop = loops[0]
             cls_loop = loops[1]
             vp_loop = loops[2]
             c = astq.strip(ifs[0]["cond"])
+            if c.get("k") == "CXXMemberCallExpr" and (c.get("callee") or "").endswith("::count"):
+                # <spec>.vp[dim]->covariant_classes.count(<class loop var>)
+                recognised = True
+                owner_ok = any(x.get("k") == "MemberExpr" and x.get("member") == "covariant_classes" for x in astq.walk(c["c"][0])) and any(
+                    x.get("k") == "DeclRefExpr" and x["ref"]["did"] == spec_loop["var"]["did"] for x in astq.walk(c["c"][0])) and any(x.get("k") == "MemberExpr" and x.get("member") == "vp" for x in astq.walk(c["c"][0]))
+                elem = astq.strip(c["c"][1])
+                elem_ok = elem.get("k") == "DeclRefExpr" and elem["ref"]["did"] == cls_loop["var"]["did"]
+                rng = astq.strip(cls_loop["range"])
+                rng_ok = any(x.get("k") == "MemberExpr" and x.get("member") == "covariant_classes" for x in astq.walk(rng)) and any(x.get("k") == "DeclRefExpr" and x["ref"]["did"] == vp_loop["var"]["did"] for x in astq.walk(rng))
+                ok = owner_ok and elem_ok and rng_ok and len(ifs) == 1
+                why = "owner set ok %s, element ok %s, classes iterated ok %s" % (owner_ok, elem_ok, rng_ok)
             # <spec>.vp[dim]->covariant_classes.find(<class loop var>) != ....end()
             if c.get("k") == "CXXOperatorCallExpr" and c.get("oop") in ("!=",):
+                recognised = True
                 l, r = astq.strip(c["c"][1]), astq.strip(c["c"][2])
                 find = l if (l.get("callee") or "").endswith("::find") else r
                 end = r if find is l else l
@@ -1310,6 +1323,20 @@ def applicable_rules(run, rule, ast):
                     ok = owner_ok and elem_ok and rng_ok and len(ifs) == 1
                     why = "owner set %s, element %s, classes iterated %s" % ("ok" if owner_ok else "is not <definition>.vp[dim]->covariant_classes", "ok" if elem_ok else "is not the class being grouped",
                                                                               "ok" if rng_ok else "are not the covariant classes of the method's parameter class")
+        def members_of_cond(c):
+            mems = set()
+            decls = {d["did"]: d for n in astq.walk(f["body"]) if n.get("k") == "DeclStmt" for d in n["decls"]}
+            for x in astq.walk(c):
+                if x.get("k") == "MemberExpr":
+                    mems.add(x.get("member"))
+                if x.get("k") == "DeclRefExpr" and x["ref"]["did"] in decls and decls[x["ref"]["did"]].get("init") is not None:
+                    for y in astq.walk(decls[x["ref"]["did"]]["init"]):
+                        if y.get("k") == "MemberExpr":
+                            mems.add(y.get("member"))
+            return mems
+        if not recognised and not (members_of_cond(ifs[0]["cond"] if ifs else st) & {"transitive_bases", "direct_bases", "direct_derived"}):
+            run.broken.append("%s: the condition deciding applicability is in a form the rule does not classify" % short(f))
+            ok = True
         run.instance(rule, "%s: definition applies to a class iff the class is in the covariant set of the definition's parameter class" % short(f), (f["file"], st["l"]), ok=ok)
         if not ok:
             run.violation(rule, "compiler::build_dispatch_tables|applicability", "applicability of a definition to a class is not decided by membership in the covariant set of its parameter class (%s)" % why, (f["file"], st["l"]))
@@ -1379,6 +1406,9 @@ def table_rules(run, rule, ast):
                 ok = idx == {"dim": 1, 1: -1} and pushed.get("k") == "DeclRefExpr" and sv.get("k") == "DeclRefExpr" and pushed["ref"]["did"] == sv["ref"]["did"] and svinit == {1: 1} and hi_ok \
                     and muls[0]["l"] <= pushes[0]["l"]
                 why = "index %s, initial %s, bound ok %s" % (astq.aff_show(idx), astq.aff_show(svinit), hi_ok)
+        if len(fors) != 1:
+            run.broken.append("%s: the loop computing the strides was not recognised" % short(f))
+            ok = True
         run.instance(rule, "%s: stride of dimension k is the product of the group counts of dimensions 0..k-1" % short(f), (f["file"], fors[0]["l"] if fors else f["line"]), ok=ok)
         if not ok:
             run.violation(rule, "compiler::build_dispatch_tables|strides", "strides are not computed as the running product of the lower dimensions' group counts (%s)" % why, (f["file"], fors[0]["l"] if fors else f["line"]))
